@@ -85,6 +85,9 @@ func (h *History) Step(op *Op) string {
 	if !h.Silent {
 		h.Run.Line(line, res)
 		h.Run.Line("dump", after.Dump())
+		if gwStream {
+			h.Run.Line("xdump", after.XDump())
+		}
 	}
 	h.Lines = append(h.Lines, line)
 	h.Ops = append(h.Ops, op)
@@ -116,6 +119,11 @@ func replayFindings(ops []*Op) map[string]finding {
 	}
 	return out
 }
+
+// gwStream: the separate comparison stream of stage 2 — after every dump an `xdump` line carries gateway-services and
+// mesh-topology for CV.Store.GwX to reproduce. ENABLED (model and implementation agreed on 8 thorough seeds before it
+// was switched on); C07_GW_STREAM=0 switches it off.
+var gwStream = os.Getenv("C07_GW_STREAM") != "0"
 
 var shrunk = map[string]bool{}
 
@@ -228,6 +236,10 @@ var profiles = []*Profile{
 		W: map[string]int{"reg": 45, "dereg": 25, "coord": 4, "sysmeta": 2, "cfgset": 7, "cfgdel": 4, "xtxn": 8, "sc": 3, "sd": 2}},
 	{Name: "txn-heavy", VipPc: 80, PeerPc: 0, CasePc: 0, KindFlips: 20,
 		W: map[string]int{"reg": 25, "dereg": 12, "coord": 3, "sysmeta": 2, "cfgset": 5, "cfgdel": 3, "xtxn": 42, "sc": 5, "sd": 3}},
+	// stage 2 (gateway-services / mesh-topology in the model): gateways together with imported sidecars, case variants of
+	// service names, kind flips and transactions
+	{Name: "gateways-mixed", VipPc: 60, PeerPc: 20, CasePc: 12, KindFlips: 20, Gateways: true,
+		W: map[string]int{"reg": 36, "dereg": 20, "coord": 1, "sysmeta": 1, "cfgset": 18, "cfgdel": 8, "xtxn": 14, "sc": 1, "sd": 1}},
 }
 
 func randomHistories(run *hx.Run, n, maxOps int) {
@@ -391,7 +403,7 @@ func main() {
 	}
 	// state.addIPOffset asks netutil for the agent's bind address (IPv4: virtual IPs are 240.0.0.0 + offset)
 	netutil.SetAgentBindAddr(&net.IPAddr{IP: net.ParseIP("10.0.0.1")})
-	run.Rule = "every result line and every full dump (nodes, services with kind/connect/proxy/virtual-IP attributes, checks, coordinates, sessions, kind-service-names, service-virtual-ips, free-virtual-ips, usage, config entries, system metadata, local index rows) of the real state store after every command equals the Lean model's; the catalog invariant, the deregistration cascades and every derived view (usage, kind-service-names, virtual IPs, gateway-services, mesh-topology) recomputed from the registrations and config entries hold on the implementation; monitor-only histories (terminating-gateway virtual IPs: both flags on) run under the same monitors without model comparison"
+	run.Rule = "every result line and every full dump (nodes, services with kind/connect/proxy/virtual-IP attributes, checks, coordinates, sessions, kind-service-names, service-virtual-ips, free-virtual-ips, usage, config entries, system metadata, local index rows; gateway-services and mesh-topology in the xdump line) of the real state store after every command equals the Lean model's; the catalog invariant, the deregistration cascades and every derived view (usage, kind-service-names, virtual IPs, gateway-services, mesh-topology) recomputed from the registrations and config entries hold on the implementation; monitor-only histories (terminating-gateway virtual IPs: both flags on) run under the same monitors without model comparison"
 	runCorpus(run)
 	randomHistories(run, run.Scale(600, 8000), 30)
 	exhaustive(run, run.Scale(3, 4))
